@@ -8,4 +8,5 @@ prop="$1"; tier="${2:-${VERIF_TIER:-quick}}"
 mkdir -p "$VERIF_ROOT/bin" "$VERIF_ROOT/evidence" "$VERIF_ROOT/replays"
 build_fmc || exit 2
 cd "$VERIF_ROOT"
-exec "$VERIF_ROOT/bin/fmc" explore -prop "$prop" -tier "$tier" -root "$VERIF_ROOT"
+# VERIF_TIME_S overrides the wall-clock cap of the tier (used by the seeded selftest on a busy machine)
+exec "$VERIF_ROOT/bin/fmc" explore -prop "$prop" -tier "$tier" -root "$VERIF_ROOT" ${VERIF_TIME_S:+-time $VERIF_TIME_S}
